@@ -52,6 +52,15 @@ def apply_exclusions(inputs):
         c.known_exclusions.append(z.Not(sym_pred(inputs)))
 
 
+def exclude_late(name, expr):
+    """a known-finding class stated over values the run derives from the inputs (e.g. what the real reader made
+    of a line): conjoin its negation to the obligation queries from here on, if that finding is active"""
+    from . import core, z
+
+    if name in _ACTIVE_EXCL:
+        core.ctx().known_exclusions.append(z.Not(expr))
+
+
 def _jsonable(v):
     import numpy as np
 
@@ -178,7 +187,7 @@ def main(argv=None):
     ap.add_argument("--tier", default=os.environ.get("VERIF_TIER", "quick"), choices=["quick", "thorough"])
     ap.add_argument("--replay")
     ap.add_argument("--jobs", type=int, default=int(os.environ.get("VERIF_JOBS", "16")))
-    ap.add_argument("--only", help="run only tasks whose name contains this")
+    ap.add_argument("--only", help="run only tasks whose name contains this (re:<regex> for a regular expression); partial runs do not write /verif/evidence")
     a = ap.parse_args(argv)
     prop = a.property.upper()
     seed = int(os.environ.get("VERIF_SEED", "0") or 0)
@@ -231,7 +240,9 @@ def main(argv=None):
     # ---- tasks
     tasks = module.tasks(a.tier)
     if a.only:
-        tasks = [t for t in tasks if a.only in t["name"]]
+        import re as _re
+
+        tasks = [t for t in tasks if (_re.search(a.only[3:], t["name"]) if a.only.startswith("re:") else a.only in t["name"])]
     import random
 
     random.Random(seed).shuffle(tasks)
@@ -350,7 +361,7 @@ def main(argv=None):
     }
     # evidence describes runs against /repo only: a run against a scratch tree (LASIO_REPO, used for the
     # seeded changes) writes its record next to that tree instead
-    evdir = os.path.join(VERIF, "evidence") if os.path.realpath(REPO) == "/repo" else os.path.join(REPO, "_seed", "evidence")
+    evdir = os.path.join(VERIF, "evidence") if os.path.realpath(REPO) == "/repo" and not a.only else os.path.join(REPO if os.path.realpath(REPO) != "/repo" else "/tmp", "_seed", "evidence")
     os.makedirs(evdir, exist_ok=True)
     json.dump(ev, open(os.path.join(evdir, prop + ".json"), "w"), indent=1)
 
